@@ -97,13 +97,13 @@ def _perm_of(mp):
 # ---------------------------------------------------------------------------------------------------------------------------
 def _check_function(acc, fname, m0, src, r, renumber_ok=True, label=''):
     """m0 is not modified.  src: text identifying the input (SMILES + decoration)"""
-    f, kind, ren_decorated = FUNCS[fname]
+    f, kind, _ = FUNCS[fname]
     valid = O.weakly_valid(m0)          # the statement's precondition: every hydrogen count defined (and no multi-bonded hydrogen)
     strong = valid and not O.invalid_atoms(m0)
     a = m0.copy()
     acc.n += 1
     try:
-        ret = f(a)
+        f(a)
     except Exception as e:
         if valid:
             acc.v(f'exc:{type(e).__name__}@{fname}', f'{fname} raised {type(e).__name__}: {e} at {_where(e)} on valence-valid {src}',
@@ -386,7 +386,7 @@ def _corpus_worker(item):
         if len(acc.samples) < 1 and not fixed_corpus:
             acc.samples.append({'input': src, 'canonical': str(mol), 'valence_valid': not mol.check_valence()})
         # seeded renumbering of the input itself (contracts are about f(pi.m))
-        for fname, (f, kind, ren_dec) in FUNCS.items():
+        for fname, (_, _, ren_dec) in FUNCS.items():
             check_function(acc, fname, mol, src, r, renumber_ok=fixed_corpus or ren_dec)
         check_inverse(acc, mol, src)
         if fixed_corpus or r.random() < .3:
@@ -583,7 +583,7 @@ def bounded(run):
     not_inst = sorted(k for k in stats if k.startswith('not-instantiated: '))
     run.bound(f'corpus: seeded sample of {n} of the 4200 molecules of pach/lipophilicity.csv; each also (a) with one functional-group spelling of '
               f'{len(O.GROUPS)} (valid and "wrong" spellings the rule tables mention) attached to a seeded CH and (b) mixed with one of '
-              f'{len(O.COUNTER_IONS)} counter-ions/acids; one seeded renumbering per contract; {len(FUNCS)} function variants + explicify/implicify inverse '
+              f'{len(O.COUNTER_IONS)} counter-ions/acids and (c) as a salt/zwitterion: 1-2 of {len(O.CATION_GROUPS)} ammonium groups attached + 1-2 of {len(O.ANIONS)} anions (balanced and unbalanced, so every branch of neutralize runs); one seeded renumbering per contract; {len(FUNCS)} function variants + explicify/implicify inverse '
               f'+ enumerate_tautomers (first {TAUT_LIMIT} tautomers, molecules <= 40 atoms, all corpus inputs and 30 % of the decorated ones)')
     run.bound(f'rules: {len(rules)} rules of _groups (double, single) and _metal_organics on their own instantiated pattern '
               f'({len(rules) - len(not_inst)} instantiated; not instantiated: {[k[18:] for k in not_inst]}); {len(pairs)} documented pairs '
